@@ -131,4 +131,1133 @@ theorem regGrid_pos (c n x : Nat) (hc : 0 < c) (hn : 0 < n) (hx : x ∈ regGrid 
     · simp at hx
     · simp at hx; omega
 
+
+/-! ## Option plumbing -/
+
+theorem consOpt_eq_some {α : Type} (a : Option α) (b : Option (List α)) (s : List α) :
+    consOpt a b = some s ↔ ∃ x xs, a = some x ∧ b = some xs ∧ s = x :: xs := by
+  cases a <;> cases b <;> simp [consOpt, eq_comm]
+
+theorem consOpt_some {α : Type} (x : α) (xs : List α) : consOpt (some x) (some xs) = some (x :: xs) := rfl
+
+theorem allSome_map_self {α : Type} (f : α → Option α) (l : List α) (h : ∀ x ∈ l, f x = some x) :
+    allSome (l.map f) = some l := by
+  induction l with
+  | nil => rfl
+  | cons x xs ih =>
+    simp only [List.map_cons, allSome]
+    rw [h x (by simp), ih (fun y hy => h y (by simp [hy]))]
+    rfl
+
+theorem allSome_eq_some_length {α : Type} (l : List (Option α)) (s : List α) (h : allSome l = some s) :
+    s.length = l.length := by
+  induction l generalizing s with
+  | nil => simp [allSome] at h; subst h; rfl
+  | cons x xs ih =>
+    simp only [allSome] at h
+    obtain ⟨y, ys, _, hys, rfl⟩ := (consOpt_eq_some _ _ _).mp h
+    simp [ih ys hys]
+
+/-! ## `Array.chunks` after the zarr round trip (`arrChunks`) -/
+
+def arrAxis (l : List Nat) : Option (List Nat) := (toChunksize1 l).map (fun c => regGrid c l.sum)
+
+theorem arrChunks_eq (d : Chunks) : arrChunks d = allSome (d.map arrAxis) := rfl
+
+theorem allButLastEq_replicate (c q : Nat) (t : List Nat) (ht : t.length ≤ 1) :
+    allButLastEq c (List.replicate q c ++ t) = true := by
+  induction q with
+  | zero =>
+    match t, ht with
+    | [], _ => rfl
+    | [_], _ => rfl
+  | succ q ih =>
+    rw [List.replicate_succ, List.cons_append]
+    cases hq : List.replicate q c ++ t with
+    | nil => rfl
+    | cons y l =>
+      simp only [allButLastEq]
+      rw [← hq, ih]
+      simp
+
+theorem lastOr_append_singleton (l : List Nat) (r d : Nat) : lastOr (l ++ [r]) d = r := by
+  induction l generalizing d with
+  | nil => rfl
+  | cons x xs ih => simp [lastOr, ih]
+
+theorem lastOr_replicate (q c d : Nat) : lastOr (List.replicate q c) d = if q = 0 then d else c := by
+  induction q generalizing d with
+  | zero => rfl
+  | succ q ih =>
+    rw [List.replicate_succ]
+    simp only [lastOr]
+    rw [ih]
+    split <;> simp
+
+theorem regGrid_self (n : Nat) (hn : 0 < n) : regGrid n n = [n] := by
+  unfold regGrid
+  rw [if_neg (by omega), Nat.div_self hn, Nat.mod_self]
+  rfl
+
+theorem regGrid_of_lt (c n : Nat) (hn : 0 < n) (h : n < c) : regGrid c n = [n] := by
+  unfold regGrid
+  rw [if_neg (by omega), Nat.div_eq_of_lt h, Nat.mod_eq_of_lt h, if_neg (by omega)]
+  rfl
+
+/-- the round trip `normalize_chunks(to_chunksize(l), sum l)` is the identity on a regular grid. -/
+theorem arrAxis_regGrid (c n : Nat) (hc : 0 < c) : arrAxis (regGrid c n) = some (regGrid c n) := by
+  by_cases hn : n = 0
+  · subst hn; rw [regGrid_zero]; rfl
+  · have hn' : 0 < n := by omega
+    by_cases hlt : n < c
+    · rw [regGrid_of_lt c n hn' hlt]
+      simp only [arrAxis, toChunksize1, regularAxis, allButLastEq, lastOr]
+      simp only [Nat.le_refl, decide_true, Bool.and_self, if_true, Option.map_some, List.sum_cons, List.sum_nil,
+        Nat.add_zero]
+      rw [Nat.max_eq_left hn', regGrid_self n hn']
+    · have hq : 0 < n / c := Nat.div_pos (by omega) hc
+      have hsum := regGrid_sum c n
+      have h2 := Nat.mod_lt n hc
+      obtain ⟨q, hq'⟩ : ∃ q, n / c = q + 1 := ⟨n / c - 1, by omega⟩
+      have hform : regGrid c n = c :: (List.replicate q c ++ (if n % c = 0 then [] else [n % c])) := by
+        unfold regGrid
+        rw [if_neg hn, hq', List.replicate_succ, List.cons_append]
+      have hreg : regularAxis (regGrid c n) = true := by
+        rw [hform]
+        simp only [regularAxis, Bool.and_eq_true, decide_eq_true_eq]
+        constructor
+        · have := allButLastEq_replicate c (q + 1) (if n % c = 0 then [] else [n % c]) (by split <;> simp)
+          rw [List.replicate_succ, List.cons_append] at this
+          exact this
+        · split
+          · rw [List.append_nil, lastOr_replicate]; split <;> omega
+          · rw [lastOr_append_singleton]; omega
+      unfold arrAxis toChunksize1
+      rw [hreg, if_pos rfl, hsum]
+      rw [hform]
+      simp only [Option.map_some]
+      rw [Nat.max_eq_left hc, ← hform]
+
+/-- chunk lists that are regular grids (what every cubed array has, see `CoreArray.__init__`). -/
+def Canon (l : List Nat) : Prop := ∃ c n, 0 < c ∧ l = regGrid c n
+
+theorem arrChunks_of_canon (d : Chunks) (h : ∀ l ∈ d, Canon l) : arrChunks d = some d := by
+  rw [arrChunks_eq]
+  apply allSome_map_self
+  intro l hl
+  obtain ⟨c, n, hc, rfl⟩ := h l hl
+  exact arrAxis_regGrid c n hc
+
+theorem canon_regGrid (c n : Nat) (hc : 0 < c) : Canon (regGrid c n) := ⟨c, n, hc, rfl⟩
+
+theorem regGrid_mul (k c : Nat) (hc : 0 < c) (hk : 0 < k) : regGrid c (k * c) = List.replicate k c := by
+  unfold regGrid
+  have : k * c ≠ 0 := Nat.mul_ne_zero (by omega) (by omega)
+  rw [if_neg this, Nat.mul_div_cancel k hc, Nat.mul_mod_left, if_pos rfl, List.append_nil]
+
+theorem canon_replicate (k c : Nat) (hc : 0 < c) (hk : 0 < k) : Canon (List.replicate k c) :=
+  ⟨c, k * c, hc, (regGrid_mul k c hc hk).symm⟩
+
+/-! ## extents / get_item -/
+
+theorem extents_length (cs : Chunks) (coords s : List Nat) (h : extents cs coords = some s) :
+    s.length = cs.length ∧ coords.length = cs.length := by
+  induction cs generalizing coords s with
+  | nil =>
+    cases coords with
+    | nil => simp [extents] at h; subst h; simp
+    | cons _ _ => simp [extents] at h
+  | cons c cs ih =>
+    cases coords with
+    | nil => simp [extents] at h
+    | cons i is =>
+      simp only [extents] at h
+      obtain ⟨x, xs, _, hxs, rfl⟩ := (consOpt_eq_some _ _ _).mp h
+      have := ih is xs hxs
+      simp [this.1, this.2]
+
+theorem take_succ_sum (c : List Nat) (i x : Nat) (h : c[i]? = some x) :
+    (c.take (i + 1)).sum = (c.take i).sum + x := by
+  induction c generalizing i with
+  | nil => simp at h
+  | cons y ys ih =>
+    cases i with
+    | zero => simp at h; subst h; simp
+    | succ j =>
+      simp only [List.getElem?_cons_succ] at h
+      simp only [List.take_succ_cons, List.sum_cons]
+      rw [ih j h]; omega
+
+/-- the region `get_item(chunks, coords)` has the extents of the chunk at `coords`. -/
+theorem regionExtents_eq_extents (cs : Chunks) (coords : List Nat) :
+    regionExtents cs coords = extents cs coords := by
+  unfold regionExtents
+  induction cs generalizing coords with
+  | nil => cases coords <;> simp [getItem, extents]
+  | cons c cs ih =>
+    cases coords with
+    | nil => simp [getItem, extents]
+    | cons i is =>
+      simp only [getItem, extents]
+      by_cases hi : i < c.length
+      · rw [if_pos hi]
+        have hx : c[i]? = some c[i] := List.getElem?_eq_getElem hi
+        rw [hx, ← ih is, take_succ_sum c i c[i] hx]
+        cases getItem cs is <;> simp [consOpt]
+      · rw [if_neg hi]
+        have : c[i]? = none := List.getElem?_eq_none (by omega)
+        rw [this]; simp [consOpt]
+
+theorem extents_append (l1 l2 : Chunks) (cs s : List Nat) :
+    extents (l1 ++ l2) cs = some s ↔
+      ∃ s1 s2, extents l1 (cs.take l1.length) = some s1 ∧ extents l2 (cs.drop l1.length) = some s2 ∧ s = s1 ++ s2 := by
+  induction l1 generalizing cs s with
+  | nil => simp [extents]
+  | cons c l1 ih =>
+    cases cs with
+    | nil => simp [extents]
+    | cons i is =>
+      simp only [List.cons_append, extents, List.length_cons, List.take_succ_cons, List.drop_succ_cons, consOpt_eq_some]
+      constructor
+      · rintro ⟨x, xs, hx, hxs, rfl⟩
+        obtain ⟨s1, s2, h1, h2, rfl⟩ := (ih is xs).mp hxs
+        exact ⟨x :: s1, s2, ⟨x, s1, hx, h1, rfl⟩, h2, rfl⟩
+      · rintro ⟨s1', s2, ⟨x, s1, hx, h1, rfl⟩, h2, rfl⟩
+        exact ⟨x, s1 ++ s2, hx, (ih is (s1 ++ s2)).mpr ⟨s1, s2, h1, h2, rfl⟩, rfl⟩
+
+
+/-! ## partial_reduce -/
+
+theorem prBlockFrom_ok (p : PartialReduce) (xs : Chunks) (i : Nat)
+    (hax : ∀ j c k b, xs[j]? = some c → p.split.lookup (i + j) = some k → b < ceilDiv c.length k →
+      0 < k ∧ prAxisLen p (i + j) k c.length b = (p.combine.lookup (i + j)).getD 1)
+    (coords s : List Nat) (he : extents (mapIdxFrom (prAxisChunks p) i xs) coords = some s) :
+    prBlockFrom p i xs coords = some s := by
+  induction xs generalizing i coords s with
+  | nil =>
+    cases coords with
+    | nil => simpa [mapIdxFrom, extents, prBlockFrom] using he
+    | cons _ _ => simp [mapIdxFrom, extents] at he
+  | cons c cs ih =>
+    cases coords with
+    | nil => simp [mapIdxFrom, extents] at he
+    | cons b bs =>
+      simp only [mapIdxFrom, extents] at he
+      obtain ⟨v, vs, hv, hvs, rfl⟩ := (consOpt_eq_some _ _ _).mp he
+      simp only [prBlockFrom]
+      have htail : prBlockFrom p (i + 1) cs bs = some vs := by
+        apply ih (i + 1) _ bs vs hvs
+        intro j c' k b' hj hk hb
+        have e : i + 1 + j = i + (j + 1) := by omega
+        rw [e] at hk ⊢
+        exact hax (j + 1) c' k b' (by simpa using hj) hk hb
+      rw [htail]
+      have hhead : prAxisBlock p i c b = some v := by
+        unfold prAxisBlock
+        unfold prAxisChunks at hv
+        cases hk : p.split.lookup i with
+        | none => rw [hk] at hv; simpa using hv
+        | some k =>
+          rw [hk] at hv
+          simp only at hv ⊢
+          rw [List.getElem?_replicate] at hv
+          split at hv
+          · next hb =>
+            have h0 := hax 0 c k b (by simp) (by simpa using hk) hb
+            rw [if_pos ((lt_ceilDiv_iff b c.length k h0.1).mp hb)]
+            simp only [Nat.add_zero] at h0
+            rw [h0.2]; exact hv
+          · simp at hv
+      rw [hhead]; rfl
+
+theorem prBlock_ok (p : PartialReduce)
+    (hax : ∀ j c k b, p.x[j]? = some c → p.split.lookup j = some k → b < ceilDiv c.length k →
+      0 < k ∧ prAxisLen p j k c.length b = (p.combine.lookup j).getD 1)
+    (coords s : List Nat) (he : extents (prChunkss p) coords = some s) : prBlock p coords = some s := by
+  apply prBlockFrom_ok p p.x 0 _ coords s he
+  intro j c k b hj hk hb
+  simp only [Nat.zero_add] at hk ⊢
+  exact hax j c k b hj hk hb
+
+/-- the blocks of one group `b` of a scan level: `min k (nb - b*k) = k` exactly when `k` divides `nb`. -/
+theorem concat_group_full (k nb b : Nat) (hk : 0 < k) (hd : k ∣ nb) (hb : b < ceilDiv nb k) :
+    min k (nb - b * k) = k := by
+  obtain ⟨m, rfl⟩ := hd
+  have h1 := (lt_ceilDiv_iff b (k * m) k hk).mp hb
+  have h2 : b < m := by
+    rw [Nat.mul_comm k m] at h1
+    exact Nat.lt_of_mul_lt_mul_right h1
+  have := mul_le_of_lt b m k h2
+  rw [Nat.mul_comm k m]
+  omega
+
+/-! ## tree_reduce -/
+
+theorem ceilDiv_le_of_le_mul (n m k : Nat) (hk : 0 < k) (h : n ≤ m * k) : ceilDiv n k ≤ m := by
+  apply Nat.le_of_not_lt
+  intro hlt
+  have := (lt_ceilDiv_iff m n k hk).mp hlt
+  omega
+
+theorem ceilDiv_pos (n k : Nat) (hk : 0 < k) (hn : 0 < n) : 0 < ceilDiv n k :=
+  (lt_ceilDiv_iff 0 n k hk).mpr (by omega)
+
+theorem treeLevels_one (k d nb : Nat) (hk : 0 < k) (hnb : 0 < nb) (h : nb ≤ k ^ d) : treeLevels k d nb = 1 := by
+  induction d generalizing nb with
+  | zero => simp at h; simp [treeLevels]; omega
+  | succ d ih =>
+    simp only [treeLevels]
+    apply ih
+    · exact ceilDiv_pos nb k hk hnb
+    · apply ceilDiv_le_of_le_mul nb (k ^ d) k hk
+      rw [Nat.pow_succ] at h; exact h
+
+/-! ## tall-and-skinny QR -/
+
+theorem maxOf_singleton (n : Nat) : maxOf [n] = n := by simp [maxOf]
+
+
+/-! ## stack -/
+
+theorem stack_core (n : Nat) (a : Chunks) (axis : Nat) (hax : axis ≤ a.length) (coords s : List Nat)
+    (he : extents (a.take axis ++ List.replicate n 1 :: a.drop axis) coords = some s) :
+    ∃ j, coords[axis]? = some j ∧ j < n ∧
+      (extents a (coords.eraseIdx axis)).map (fun t => t.take axis ++ 1 :: t.drop axis) = some s := by
+  induction axis generalizing a coords s with
+  | zero =>
+    simp only [List.take_zero, List.nil_append, List.drop_zero] at he
+    cases coords with
+    | nil => simp [extents] at he
+    | cons j c2 =>
+      simp only [extents] at he
+      obtain ⟨v, vs, hv, hvs, rfl⟩ := (consOpt_eq_some _ _ _).mp he
+      rw [List.getElem?_replicate] at hv
+      split at hv
+      · next hj =>
+        simp at hv; subst hv
+        exact ⟨j, by simp, hj, by simp [hvs]⟩
+      · simp at hv
+  | succ axis ih =>
+    cases a with
+    | nil => simp at hax
+    | cons c a' =>
+      cases coords with
+      | nil => simp [extents] at he
+      | cons i is =>
+        simp only [List.take_succ_cons, List.drop_succ_cons, List.cons_append, extents] at he
+        obtain ⟨x, xs, hx, hxs, rfl⟩ := (consOpt_eq_some _ _ _).mp he
+        obtain ⟨j, hj, hjn, hm⟩ := ih a' (by simpa using hax) is xs hxs
+        refine ⟨j, by simpa using hj, hjn, ?_⟩
+        simp only [List.eraseIdx_cons_succ, extents, hx]
+        cases ht : extents a' (is.eraseIdx axis) with
+        | none => rw [ht] at hm; simp at hm
+        | some t =>
+          rw [ht] at hm
+          simp only [Option.map_some, Option.some.injEq] at hm
+          simp [consOpt, ← hm]
+
+theorem stackBlock_ok (args : List Chunks) (axis : Nat) (a : Chunks) (hargs : ∀ x ∈ args, x = a)
+    (d : Chunks) (hd : stackChunkss args axis = some d) (coords s : List Nat) (he : extents d coords = some s) :
+    stackBlock args axis coords = some s := by
+  unfold stackChunkss at hd
+  cases hargs' : args with
+  | nil => rw [hargs'] at hd; simp at hd
+  | cons a0 rest =>
+    rw [hargs'] at hd
+    simp only at hd
+    have ha0 : a0 = a := hargs a0 (by rw [hargs']; simp)
+    subst ha0
+    split at hd
+    · next hax =>
+      simp only [Option.some.injEq] at hd
+      subst hd
+      obtain ⟨j, hj, hjn, hm⟩ := stack_core (a0 :: rest).length a0 axis hax coords s he
+      unfold stackBlock
+      rw [hj]
+      simp only
+      have hjl : j < (a0 :: rest).length := hjn
+      have hx : (a0 :: rest)[j]? = some (a0 :: rest)[j] := List.getElem?_eq_getElem hjl
+      rw [hx]
+      simp only
+      have : (a0 :: rest)[j] = a0 := hargs _ (by rw [hargs']; exact List.getElem_mem hjl)
+      rw [this]; exact hm
+    · simp at hd
+
+/-! ## QR first step -/
+
+theorem qr1Block_ok (rows : List Nat) (n : Nat) (hrows : ∀ m ∈ rows, n ≤ m)
+    (coords sq sr : List Nat)
+    (hq : extents [rows, [n]] coords = some sq)
+    (hr : extents [List.replicate rows.length n, [n]] coords = some sr) :
+    qr1Block [rows, [n]] coords = some (sq, sr) := by
+  match coords, hq, hr with
+  | [i, j], hq, hr =>
+    simp only [extents, consOpt_eq_some] at hq hr
+    obtain ⟨m, _, hm, ⟨w, t2, hw, ht2, rfl⟩, rfl⟩ := hq
+    obtain ⟨m', _, hm', ⟨w', t2', hw', ht2', rfl⟩, rfl⟩ := hr
+    simp only [Option.some.injEq] at ht2 ht2'
+    subst ht2; subst ht2'
+    have hmem : m ∈ rows := List.mem_of_getElem? hm
+    have hle := hrows m hmem
+    rw [List.getElem?_replicate] at hm'
+    have hj : j = 0 := by
+      cases j with
+      | zero => rfl
+      | succ j => simp at hw
+    subst hj
+    simp at hw hw'
+    subst hw; subst hw'
+    split at hm'
+    · simp at hm'; subst hm'
+      simp [qr1Block, hm, qrShapes, Nat.min_eq_right hle]
+    · simp at hm'
+  | [], hq, _ => simp [extents] at hq
+  | [_], hq, _ => simp [extents, consOpt] at hq
+  | _ :: _ :: _ :: _, hq, _ => simp [extents, consOpt] at hq
+
+/-! ## blockwise with an index-faithful function (elementwise / transposition) -/
+
+theorem mem_dedupAux {α : Type} [BEq α] (seen l : List α) (y : α) (h : y ∈ dedupAux seen l) : y ∈ l := by
+  induction l generalizing seen with
+  | nil => simp [dedupAux] at h
+  | cons x xs ih =>
+    simp only [dedupAux] at h
+    split at h
+    · exact List.mem_cons_of_mem _ (ih _ h)
+    · rcases List.mem_cons.mp h with h | h
+      · subst h; simp
+      · exact List.mem_cons_of_mem _ (ih _ h)
+
+theorem mem_dedup {α : Type} [BEq α] (l : List α) (y : α) (h : y ∈ dedup l) : y ∈ l := mem_dedupAux [] l y h
+
+theorem foldl_pick_mem {α : Type} (g : α → α → α) (hg : ∀ b x, g b x = b ∨ g b x = x) (d : α) (ds : List α) :
+    ds.foldl g d ∈ d :: ds := by
+  induction ds generalizing d with
+  | nil => simp
+  | cons x xs ih =>
+    simp only [List.foldl_cons]
+    have := ih (g d x)
+    rcases hg d x with h | h <;> rw [h] at this ⊢
+    · rcases List.mem_cons.mp this with h' | h'
+      · rw [h']; simp
+      · simp [h']
+    · simp [this]
+
+theorem pickMost_mem (L : List (List Nat)) (u : List Nat) (h : pickMost L = some u) : u ∈ L := by
+  cases L with
+  | nil => simp [pickMost] at h
+  | cons c cs =>
+    simp only [pickMost, Option.some.injEq] at h
+    rw [← h]
+    apply foldl_pick_mem
+    intro b x; split <;> simp
+
+theorem smallestBlockdim_mem (S : List (List Nat)) (u : List Nat) (h : smallestBlockdim S = some u) : u ∈ S := by
+  unfold smallestBlockdim at h
+  have hsub : ∀ y, y ∈ dedup (S.filter (fun d => d.length > 1)) → y ∈ S := fun y hy =>
+    (List.mem_filter.mp (mem_dedup _ y hy)).1
+  split at h
+  · next d hd =>
+    simp only [Option.some.injEq] at h; subst h
+    exact hsub _ (by rw [hd]; simp)
+  · next hd =>
+    cases S with
+    | nil => simp at h
+    | cons d ds =>
+      simp only [Option.some.injEq] at h
+      rw [← h]
+      apply foldl_pick_mem
+      intro b x; split <;> simp
+  · next d ds _ hd =>
+    split at h
+    · simp at h
+    · simp only [Option.some.injEq] at h
+      have : u ∈ d :: ds := by
+        rw [← h]; apply foldl_pick_mem
+        intro b x; split <;> simp
+      exact hsub _ (by rw [hd]; exact this)
+
+theorem unifyPick_mem (L : List (List Nat)) (u : List Nat) (h : unifyPick L = some u) : u ∈ L := by
+  unfold unifyPick at h
+  simp only at h
+  have := smallestBlockdim_mem _ u h
+  split at this
+  · exact mem_dedup _ _ (List.mem_filter.mp this).1
+  · exact mem_dedup _ _ this
+
+theorem bcast_fold_from_x (vals : List Nat) (x : Nat) (h : ∀ v ∈ vals, v = x ∨ v = 1) :
+    vals.foldl (fun acc v => acc.bind (fun a => bcast2 a v)) (some x) = some x := by
+  induction vals with
+  | nil => rfl
+  | cons v vs ih =>
+    simp only [List.foldl_cons, Option.bind_some]
+    have hv := h v (by simp)
+    have : bcast2 x v = some x := by
+      unfold bcast2
+      rcases hv with hv | hv
+      · subst hv; simp
+      · subst hv; split <;> simp_all
+    rw [this]
+    exact ih (fun w hw => h w (by simp [hw]))
+
+theorem bcastAll_unified (vals : List Nat) (x : Nat) (h : ∀ v ∈ vals, v = x ∨ v = 1) (hx : x ∈ vals) :
+    bcastAll vals = some x := by
+  unfold bcastAll
+  induction vals with
+  | nil => simp at hx
+  | cons v vs ih =>
+    simp only [List.foldl_cons, Option.bind_some]
+    by_cases hvx : v = x
+    · subst hvx
+      have : bcast2 1 v = some v := by unfold bcast2; split <;> simp_all
+      rw [this]
+      exact bcast_fold_from_x vs v (fun w hw => h w (by simp [hw]))
+    · have hv1 : v = 1 := by
+        rcases h v (by simp) with h' | h'
+        · exact absurd h' hvx
+        · exact h'
+      subst hv1
+      have : bcast2 1 1 = some 1 := by simp [bcast2]
+      rw [this]
+      apply ih (fun w hw => h w (by simp [hw]))
+      rcases List.mem_cons.mp hx with h' | h'
+      · exact absurd h'.symm hvx
+      · exact h'
+
+theorem labelVals_unified (L : List (List Nat)) (u : List Nat) (c x : Nat)
+    (hL : ∀ ch ∈ L, ch = u ∨ ch = [1]) (hx : u[c]? = some x) :
+    ∃ vals, allSome (L.map (fun ch => if ch.length > 1 then ch[c]? else ch[0]?)) = some vals ∧
+      (∀ v ∈ vals, v = x ∨ v = 1) ∧ (u ∈ L → x ∈ vals) := by
+  induction L with
+  | nil => exact ⟨[], rfl, by simp, by simp⟩
+  | cons ch rest ih =>
+    obtain ⟨vals, hv, hall, hmem⟩ := ih (fun w hw => hL w (by simp [hw]))
+    have hfu : (if u.length > 1 then u[c]? else u[0]?) = some x := by
+      split
+      · exact hx
+      · next hlen =>
+        have hc : c < u.length := by
+          rcases Nat.lt_or_ge c u.length with h | h
+          · exact h
+          · rw [List.getElem?_eq_none h] at hx; simp at hx
+        have : c = 0 := by omega
+        subst this; exact hx
+    rcases hL ch (by simp) with hch | hch
+    · subst hch
+      refine ⟨x :: vals, ?_, ?_, ?_⟩
+      · simp only [List.map_cons, allSome]; rw [hfu, hv]; rfl
+      · intro v hv'; rcases List.mem_cons.mp hv' with h | h
+        · exact Or.inl h
+        · exact hall v h
+      · intro _; simp
+    · subst hch
+      refine ⟨1 :: vals, ?_, ?_, ?_⟩
+      · simp only [List.map_cons, allSome]; rw [hv]; rfl
+      · intro v hv'; rcases List.mem_cons.mp hv' with h | h
+        · exact Or.inr h
+        · exact hall v h
+      · intro hu
+        rcases List.mem_cons.mp hu with h | h
+        · -- u = [1]
+          subst h
+          have : x = 1 := by
+            cases c with
+            | zero => simpa using hx.symm
+            | succ c => simp at hx
+          subst this; simp
+        · exact List.mem_cons_of_mem _ (hmem h)
+
+theorem labelBlockLen_unified (args : List BwArg) (i : Nat) (u : List Nat) (c x : Nat)
+    (hL : ∀ ch ∈ labelChunks args i, ch = u ∨ ch = [1]) (hu : u ∈ labelChunks args i) (hx : u[c]? = some x) :
+    labelBlockLen args i c = some x := by
+  unfold labelBlockLen
+  obtain ⟨vals, hv, hall, hmem⟩ := labelVals_unified (labelChunks args i) u c x hL hx
+  rw [hv]
+  simp only [Option.bind_some]
+  exact bcastAll_unified vals x hall (hmem hu)
+
+theorem faithful_core (args : List BwArg) (dim : Nat → Option (List Nat)) (is : List Nat)
+    (hu : ∀ i ∈ is, ∀ u, dim i = some u →
+      u ∈ labelChunks args i ∧ ∀ ch ∈ labelChunks args i, ch = u ∨ ch = [1])
+    (d : Chunks) (hd : allSome (is.map dim) = some d) (coords s : List Nat) (he : extents d coords = some s) :
+    allSome ((is.zip coords).map (fun p => labelBlockLen args p.1 p.2)) = some s ∧ coords.length = is.length := by
+  induction is generalizing d coords s with
+  | nil =>
+    simp [allSome] at hd; subst hd
+    cases coords with
+    | nil => simp [extents] at he; subst he; simp [allSome]
+    | cons _ _ => simp [extents] at he
+  | cons i is ih =>
+    simp only [List.map_cons, allSome] at hd
+    obtain ⟨u, d', hu', hd', rfl⟩ := (consOpt_eq_some _ _ _).mp hd
+    cases coords with
+    | nil => simp [extents] at he
+    | cons c cs =>
+      simp only [extents] at he
+      obtain ⟨x, xs, hx, hxs, rfl⟩ := (consOpt_eq_some _ _ _).mp he
+      have ⟨h1, h2⟩ := ih (fun j hj => hu j (by simp [hj])) d' hd' cs xs hxs
+      have ⟨hm, hall⟩ := hu i (by simp) u hu'
+      simp only [List.zip_cons_cons, List.map_cons, allSome, List.length_cons]
+      rw [labelBlockLen_unified args i u c x hall hm hx, h1]
+      exact ⟨rfl, by omega⟩
+
+theorem labelDim_mem (b : Bw) (hnew : b.newAxes = []) (i : Nat) (u : List Nat) (h : labelDim b i = some u) :
+    u ∈ labelChunks b.args i := by
+  unfold labelDim at h
+  rw [hnew] at h
+  simp only [List.lookup_nil] at h
+  split at h
+  · exact unifyPick_mem _ _ h
+  · exact pickMost_mem _ _ h
+
+theorem bwChunkss_no_adjust (b : Bw) (hadj : b.adjust = []) :
+    bwChunkss b = allSome (b.outInd.map (labelDim b)) := by
+  unfold bwChunkss
+  congr 1
+  apply List.map_congr_left
+  intro i _
+  rw [hadj]
+  cases labelDim b i <;> simp [applyAdjust]
+
+theorem bwBlockFaithful_ok (b : Bw) (hadj : b.adjust = []) (hnew : b.newAxes = [])
+    (hu : ∀ i ∈ b.outInd, ∀ u, labelDim b i = some u → ∀ ch ∈ labelChunks b.args i, ch = u ∨ ch = [1])
+    (d : Chunks) (hd : bwChunkss b = some d) (coords s : List Nat) (he : extents d coords = some s) :
+    bwBlockFaithful b coords = some s := by
+  rw [bwChunkss_no_adjust b hadj] at hd
+  have ⟨h1, h2⟩ := faithful_core b.args (labelDim b) b.outInd
+    (fun i hi u hu' => ⟨labelDim_mem b hnew i u hu', hu i hi u hu'⟩) d hd coords s he
+  unfold bwBlockFaithful
+  rw [if_pos h2, h1]
+
+
+/-! ## maxOf -/
+
+theorem foldl_max_le (l : List Nat) (a m : Nat) (ha : a ≤ m) (hl : ∀ x ∈ l, x ≤ m) : l.foldl max a ≤ m := by
+  induction l generalizing a with
+  | nil => simpa using ha
+  | cons x xs ih =>
+    simp only [List.foldl_cons]
+    apply ih
+    · have := hl x (by simp); omega
+    · intro y hy; exact hl y (by simp [hy])
+
+theorem foldl_max_ge_init (l : List Nat) (a : Nat) : a ≤ l.foldl max a := by
+  induction l generalizing a with
+  | nil => simp
+  | cons x xs ih =>
+    simp only [List.foldl_cons]
+    have := ih (max a x); omega
+
+theorem foldl_max_ge_mem (l : List Nat) (a m : Nat) (hm : m ∈ l) : m ≤ l.foldl max a := by
+  induction l generalizing a with
+  | nil => simp at hm
+  | cons x xs ih =>
+    simp only [List.foldl_cons]
+    rcases List.mem_cons.mp hm with h | h
+    · subst h; have := foldl_max_ge_init xs (max a m); omega
+    · exact ih _ h
+
+theorem maxOf_eq (l : List Nat) (m : Nat) (hle : ∀ x ∈ l, x ≤ m) (hm : m ∈ l) : maxOf l = m := by
+  unfold maxOf
+  have h1 := foldl_max_le l 0 m (by omega) hle
+  have h2 := foldl_max_ge_mem l 0 m hm
+  omega
+
+theorem maxOf_regGrid (c n : Nat) (hc : 0 < c) (hn : 0 < n) : maxOf (regGrid c n) = min c n := by
+  by_cases hlt : n < c
+  · rw [regGrid_of_lt c n hn hlt, maxOf_singleton]; omega
+  · apply maxOf_eq
+    · intro x hx
+      have := regGrid_le c n x hc hx
+      omega
+    · have hq : 0 < n / c := Nat.div_pos (by omega) hc
+      unfold regGrid
+      rw [if_neg (by omega), List.mem_append]
+      left
+      rw [List.mem_replicate]
+      exact ⟨by omega, by omega⟩
+
+theorem regGrid_min (c n : Nat) (hn : 0 < n) : regGrid (min c n) n = regGrid c n := by
+  by_cases hlt : n < c
+  · rw [regGrid_of_lt c n hn hlt, Nat.min_eq_right (by omega), regGrid_self n hn]
+  · rw [Nat.min_eq_left (by omega)]
+
+theorem getElem?_lt_length {α : Type} (l : List α) (i : Nat) (x : α) (h : l[i]? = some x) : i < l.length := by
+  rcases Nat.lt_or_ge i l.length with h' | h'
+  · exact h'
+  · rw [List.getElem?_eq_none h'] at h; simp at h
+
+/-! ## repeat -/
+
+theorem repeat_arith (c n r b : Nat) (hc : 0 < c) (hr : 0 < r) (hb : b * c < n * r) :
+    (b / r) * c < n ∧
+    min ((b % r + 1) * c) (r * min c (n - (b / r) * c)) - min ((b % r) * c) (r * min c (n - (b / r) * c))
+      = min c (n * r - b * c) := by
+  have hdm := div_mul_add_mod b r
+  have hbi := Nat.mod_lt b hr
+  generalize hi : b / r = i at *
+  generalize hbi' : b % r = bi at *
+  -- b * c = (i*c)*r + bi*c
+  have e1 : b * c = i * c * r + bi * c := by
+    rw [← hdm, Nat.add_mul, Nat.mul_assoc, Nat.mul_comm r c, ← Nat.mul_assoc]
+  have e2 : (bi + 1) * c = bi * c + c := succ_mul' bi c
+  have e3 : bi * c + c ≤ r * c := mul_le_of_lt bi r c hbi
+  have hlt : i * c < n := by
+    apply Nat.lt_of_not_le
+    intro hge
+    have := Nat.mul_le_mul_right r hge
+    omega
+  refine ⟨hlt, ?_⟩
+  by_cases hfull : i * c + c ≤ n
+  · have hL : min c (n - i * c) = c := by omega
+    rw [hL, e2]
+    have e4 : (i * c + c) * r ≤ n * r := Nat.mul_le_mul_right r hfull
+    rw [Nat.add_mul] at e4
+    rw [Nat.mul_comm c r] at e4
+    omega
+  · have hL : min c (n - i * c) = n - i * c := by omega
+    rw [hL, e2]
+    have e4 : n * r = i * c * r + r * (n - i * c) := by
+      have : n = i * c + (n - i * c) := by omega
+      conv => lhs; rw [this]
+      rw [Nat.add_mul, Nat.mul_comm (n - i * c) r]
+    omega
+
+theorem repeatAxis_ok (c0 n r b v : Nat) (hc : 0 < c0) (hn : 0 < n) (hr : 0 < r)
+    (hv : (regGrid (maxOf (regGrid c0 n)) ((regGrid c0 n).sum * r))[b]? = some v) :
+    repeatAxisBlock r (regGrid c0 n) b = some v := by
+  rw [regGrid_sum, maxOf_regGrid c0 n hc hn] at hv
+  have hcz : 0 < min c0 n := by omega
+  have hnr : 0 < n * r := Nat.mul_pos hn hr
+  have hblen := getElem?_lt_length _ _ _ hv
+  rw [regGrid_length _ _ hcz hnr] at hblen
+  rw [regGrid_get _ _ b hcz hnr hblen] at hv
+  have hbc := (lt_ceilDiv_iff b (n * r) (min c0 n) hcz).mp hblen
+  obtain ⟨h1, h2⟩ := repeat_arith (min c0 n) n r b hcz hr hbc
+  unfold repeatAxisBlock
+  rw [if_neg (by omega), maxOf_regGrid c0 n hc hn, ← regGrid_min c0 n hn]
+  have hi : b / r < ceilDiv n (min c0 n) := (lt_ceilDiv_iff _ n _ hcz).mpr h1
+  rw [regGrid_get _ _ _ hcz hn hi]
+  simp only [Option.map_some]
+  rw [h2]
+  exact hv
+
+/-! ## copy regions (rechunk / merge_chunks) and index -/
+
+theorem take_sum_le (l : List Nat) (i : Nat) : (l.take i).sum ≤ l.sum := by
+  induction l generalizing i with
+  | nil => simp
+  | cons x xs ih =>
+    cases i with
+    | zero => simp
+    | succ j => simp only [List.take_succ_cons, List.sum_cons]; have := ih j; omega
+
+theorem ceilDiv_one (y : Nat) : ceilDiv y 1 = y := by simp [ceilDiv]
+
+theorem copyAxis_ok (n : Nat) (t : List Nat) (ht : t.sum = n) (b v : Nat) (hv : t[b]? = some v) :
+    copyAxisBlock n t b = some v := by
+  unfold copyAxisBlock
+  rw [if_pos (getElem?_lt_length _ _ _ hv), take_succ_sum t b v hv]
+  have := take_sum_le t (b + 1)
+  rw [take_succ_sum t b v hv, ht] at this
+  unfold selLen
+  rw [ceilDiv_one]
+  congr 1; omega
+
+theorem copyBlock_ok (x : Chunks) (copy : List Nat) (d : Chunks) (hd : copyChunkss x copy = some d)
+    (coords s : List Nat) (he : extents d coords = some s) : copyBlock x copy coords = some s := by
+  induction x generalizing copy d coords s with
+  | nil =>
+    cases copy with
+    | nil =>
+      simp [copyChunkss] at hd; subst hd
+      cases coords with
+      | nil => simpa [extents, copyBlock] using he
+      | cons _ _ => simp [extents] at he
+    | cons _ _ => simp [copyChunkss] at hd
+  | cons l ls ih =>
+    cases copy with
+    | nil => simp [copyChunkss] at hd
+    | cons c cs =>
+      simp only [copyChunkss, Option.map_eq_some_iff] at hd
+      obtain ⟨r, hr, rfl⟩ := hd
+      cases coords with
+      | nil => simp [extents] at he
+      | cons b bs =>
+        simp only [extents] at he
+        obtain ⟨v, vs, hv, hvs, rfl⟩ := (consOpt_eq_some _ _ _).mp he
+        simp only [copyBlock]
+        rw [ih cs r hr bs vs hvs, copyAxis_ok l.sum _ (regGrid_sum _ _) b v hv]
+        rfl
+
+theorem ceilDiv_zero (k : Nat) (hk : 0 < k) : ceilDiv 0 k = 0 := by
+  unfold ceilDiv
+  exact Nat.div_eq_of_lt (by omega)
+
+theorem ceilDiv_eq_of_bounds (x v k : Nat) (hk : 0 < k) (hv : 0 < v) (h1 : (v - 1) * k < x) (h2 : x ≤ v * k) :
+    ceilDiv x k = v := by
+  have a : v - 1 < ceilDiv x k := (lt_ceilDiv_iff (v - 1) x k hk).mpr h1
+  have b : ¬ v < ceilDiv x k := by
+    intro h
+    have := (lt_ceilDiv_iff v x k hk).mp h
+    omega
+  omega
+
+/-- a block of `v` consecutive selected positions `start + k*step` (`lo ≤ k < lo+v`), all below
+`stop ≤ n`: zarr's indexer counts exactly `v` items for `slice(start+lo*step, start+(lo+v)*step, step)`. -/
+theorem slice_block_len (n start stop step lo v : Nat) (hstep : 0 < step) (hstop : stop ≤ n)
+    (hin : lo + v ≤ sliceLen start stop step) :
+    selLen n (start + lo * step) (start + (lo + v) * step) step = v := by
+  unfold selLen
+  by_cases hv0 : v = 0
+  · subst hv0
+    simp only [Nat.add_zero, Nat.sub_self]
+    exact ceilDiv_zero step hstep
+  · have hv : 0 < v := by omega
+    unfold sliceLen at hin
+    have hk : lo + v - 1 < ceilDiv (stop - start) step := by omega
+    have hlast := (lt_ceilDiv_iff _ _ _ hstep).mp hk
+    have e1 : (lo + v) * step = lo * step + v * step := Nat.add_mul lo v step
+    have e2 : (lo + v - 1) * step = lo * step + (v - 1) * step := by
+      have : lo + v - 1 = lo + (v - 1) := by omega
+      rw [this, Nat.add_mul]
+    have e3 : v * step = (v - 1) * step + step := by
+      have : v = (v - 1) + 1 := by omega
+      conv => lhs; rw [this]
+      rw [succ_mul']
+    apply ceilDiv_eq_of_bounds _ v step hstep hv
+    · omega
+    · omega
+
+theorem indexAxis_ok (c : List Nat) (s : Sel) (b v : Nat)
+    (hs : match s with
+          | .slice _ stop step _ => 0 < step ∧ stop ≤ c.sum
+          | _ => True)
+    (hv : (regGrid (max (indexChunkLen s (maxOf c)) 1) (indexAxisLen s))[b]? = some v)
+    (hne : s ≠ .int) :
+    indexAxisBlock c s b = some v := by
+  unfold indexAxisBlock
+  simp only
+  have hlen := getElem?_lt_length _ _ _ hv
+  rw [if_pos hlen]
+  have hsucc := take_succ_sum _ b v hv
+  have hle := take_sum_le (regGrid (max (indexChunkLen s (maxOf c)) 1) (indexAxisLen s)) (b + 1)
+  rw [hsucc, regGrid_sum] at hle
+  rw [hsucc]
+  cases s with
+  | int => exact absurd rfl hne
+  | arr n =>
+    simp only [indexAxisLen] at hle ⊢
+    congr 1; omega
+  | slice start stop step orig =>
+    simp only [indexAxisLen] at hle ⊢
+    simp only at hs
+    congr 1
+    exact slice_block_len c.sum start stop step _ v hs.1 hs.2 hle
+
+def SelOK (c : List Nat) (s : Sel) : Prop :=
+  match s with
+  | .slice _ stop step _ => 0 < step ∧ stop ≤ c.sum
+  | _ => True
+
+theorem indexBlock_ok (x : Chunks) (sels : List Sel)
+    (hok : ∀ p ∈ x.zip sels, SelOK p.1 p.2)
+    (d : Chunks) (hd : indexChunkss x sels = some d) (coords s : List Nat) (he : extents d coords = some s) :
+    indexBlock x sels coords = some s := by
+  induction x generalizing sels d coords s with
+  | nil =>
+    cases sels with
+    | nil =>
+      simp [indexChunkss] at hd; subst hd
+      cases coords with
+      | nil => simpa [extents, indexBlock] using he
+      | cons _ _ => simp [extents] at he
+    | cons _ _ => simp [indexChunkss] at hd
+  | cons c cs ih =>
+    cases sels with
+    | nil => simp [indexChunkss] at hd
+    | cons sel ss =>
+      have hok' : ∀ p ∈ cs.zip ss, SelOK p.1 p.2 := fun p hp => hok p (by simp [hp])
+      have hsel : SelOK c sel := hok (c, sel) (by simp)
+      simp only [indexChunkss] at hd
+      cases hr : indexChunkss cs ss with
+      | none => rw [hr] at hd; simp at hd
+      | some r =>
+        rw [hr] at hd
+        by_cases hint : sel = .int
+        · subst hint
+          simp only [Option.some.injEq] at hd; subst hd
+          simp only [indexBlock]
+          exact ih ss hok' r hr coords s he
+        · have hd' : d = regGrid (max (indexChunkLen sel (maxOf c)) 1) (indexAxisLen sel) :: r := by
+            cases sel with
+            | int => exact absurd rfl hint
+            | arr n => simpa using hd.symm
+            | slice a b st o => simpa using hd.symm
+          subst hd'
+          cases coords with
+          | nil => simp [extents] at he
+          | cons b bs =>
+            simp only [extents] at he
+            obtain ⟨v, vs, hv, hvs, rfl⟩ := (consOpt_eq_some _ _ _).mp he
+            have hb := indexAxis_ok c sel b v hsel hv hint
+            have ht := ih ss hok' r hr bs vs hvs
+            cases sel with
+            | int => exact absurd rfl hint
+            | arr n => simp only [indexBlock]; rw [hb, ht]; rfl
+            | slice a b' st o => simp only [indexBlock]; rw [hb, ht]; rfl
+
+/-- `sliceLen` counts the selected positions: `k < sliceLen ↔ start + k*step < stop`. -/
+theorem sliceLen_spec (start stop step k : Nat) (hstep : 0 < step) :
+    k < sliceLen start stop step ↔ start + k * step < stop := by
+  unfold sliceLen
+  rw [lt_ceilDiv_iff k (stop - start) step hstep]
+  omega
+
+
+/-! ## repeat, whole array -/
+
+theorem canon_regrid_self (c : List Nat) (h : Canon c) : regGrid (maxOf c) c.sum = c := by
+  obtain ⟨c0, n, hc, rfl⟩ := h
+  rw [regGrid_sum]
+  by_cases hn : n = 0
+  · subst hn; simp [regGrid]
+  · have hn' : 0 < n := by omega
+    rw [maxOf_regGrid c0 n hc hn', regGrid_min c0 n hn']
+
+theorem repeatAxis_ok' (c : List Nat) (hcan : Canon c) (r b v : Nat) (hr : 0 < r)
+    (hv : (regGrid (maxOf c) (c.sum * r))[b]? = some v) : repeatAxisBlock r c b = some v := by
+  obtain ⟨c0, n, hc, rfl⟩ := hcan
+  by_cases hn : n = 0
+  · subst hn
+    rw [regGrid_zero] at hv ⊢
+    have hv' : ([0] : List Nat)[b]? = some v := by simpa [regGrid, maxOf] using hv
+    cases b with
+    | zero =>
+      simp at hv'; subst hv'
+      unfold repeatAxisBlock
+      rw [if_neg (by omega)]
+      simp [maxOf]
+    | succ b => simp at hv'
+  · exact repeatAxis_ok c0 n r b v hc (by omega) hr hv
+
+theorem repeatBlockFrom_ok (r axis : Nat) (hr : 0 < r) (xs : Chunks) (hcan : ∀ c ∈ xs, Canon c) (i : Nat)
+    (coords s : List Nat)
+    (he : extents (mapIdxFrom (fun j c => regGrid (maxOf c) (if j = axis then c.sum * r else c.sum)) i xs) coords = some s) :
+    repeatBlockFrom r axis i xs coords = some s := by
+  induction xs generalizing i coords s with
+  | nil =>
+    cases coords with
+    | nil => simpa [mapIdxFrom, extents, repeatBlockFrom] using he
+    | cons _ _ => simp [mapIdxFrom, extents] at he
+  | cons c cs ih =>
+    cases coords with
+    | nil => simp [mapIdxFrom, extents] at he
+    | cons b bs =>
+      simp only [mapIdxFrom, extents] at he
+      obtain ⟨v, vs, hv, hvs, rfl⟩ := (consOpt_eq_some _ _ _).mp he
+      simp only [repeatBlockFrom]
+      rw [ih (fun c' hc' => hcan c' (by simp [hc'])) (i + 1) bs vs hvs]
+      have hc := hcan c (by simp)
+      have : (if i = axis then repeatAxisBlock r c b else c[b]?) = some v := by
+        split
+        · next h => rw [if_pos h] at hv; exact repeatAxis_ok' c hc r b v hr hv
+        · next h => rw [if_neg h, canon_regrid_self c hc] at hv; exact hv
+      rw [this]; rfl
+
+theorem repeatBlock_ok (x : Chunks) (r axis : Nat) (hr : 0 < r) (hcan : ∀ c ∈ x, Canon c)
+    (d : Chunks) (hd : repeatChunkss x r axis = some d) (coords s : List Nat) (he : extents d coords = some s) :
+    repeatBlock x r axis coords = some s := by
+  unfold repeatChunkss at hd
+  split at hd
+  · simp only [Option.some.injEq] at hd; subst hd
+    exact repeatBlockFrom_ok r axis hr x hcan 0 coords s he
+  · simp at hd
+
+/-! ## squeeze (several axes) -/
+
+theorem squeeze_core (axes : List Nat) (x : Chunks) (k : Nat)
+    (hone : ∀ j c, x[j]? = some c → axes.contains (k + j) = true → c = [1])
+    (coords s : List Nat) (he : extents (removeAxesFrom axes k x) coords = some s) :
+    ∃ t, extents x (unsqueezeCoords axes k x coords) = some t ∧ removeAxesFrom axes k t = s ∧
+      (∀ j, axes.contains (k + j) = true → j < t.length → t[j]? = some 1) := by
+  induction x generalizing k coords s with
+  | nil =>
+    cases coords with
+    | nil => simp [removeAxesFrom, extents] at he; subst he; exact ⟨[], by simp [unsqueezeCoords, extents], rfl, by simp⟩
+    | cons _ _ => simp [removeAxesFrom, extents] at he
+  | cons c cs ih =>
+    have hone' : ∀ j c', cs[j]? = some c' → axes.contains (k + 1 + j) = true → c' = [1] := by
+      intro j c' hj hc
+      have e : k + 1 + j = k + (j + 1) := by omega
+      rw [e] at hc
+      exact hone (j + 1) c' (by simpa using hj) hc
+    by_cases hk : axes.contains k = true
+    · simp only [removeAxesFrom, hk, if_true] at he
+      obtain ⟨t, ht, hrem, hones⟩ := ih (k + 1) hone' coords s he
+      have hc1 : c = [1] := hone 0 c (by simp) (by simpa using hk)
+      refine ⟨1 :: t, ?_, ?_, ?_⟩
+      · simp only [unsqueezeCoords, hk, if_true, extents]
+        rw [ht, hc1]; rfl
+      · simp only [removeAxesFrom, hk, if_true]; exact hrem
+      · intro j hj hlt
+        cases j with
+        | zero => simp
+        | succ j =>
+          simp only [List.getElem?_cons_succ]
+          have e : k + (j + 1) = k + 1 + j := by omega
+          rw [e] at hj
+          exact hones j hj (by simpa using hlt)
+    · have hk' : axes.contains k = false := by simpa using hk
+      simp only [removeAxesFrom, hk'] at he
+      cases coords with
+      | nil => simp [extents] at he
+      | cons b bs =>
+        simp only [Bool.false_eq_true, if_false, extents] at he
+        obtain ⟨v, vs, hv, hvs, rfl⟩ := (consOpt_eq_some _ _ _).mp he
+        obtain ⟨t, ht, hrem, hones⟩ := ih (k + 1) hone' bs vs hvs
+        refine ⟨v :: t, ?_, ?_, ?_⟩
+        · simp only [unsqueezeCoords, hk', Bool.false_eq_true, if_false, extents]
+          rw [ht, hv]; rfl
+        · simp only [removeAxesFrom, hk', Bool.false_eq_true, if_false, hrem]
+        · intro j hj hlt
+          cases j with
+          | zero => simp only [Nat.add_zero] at hj; exact absurd hj hk
+          | succ j =>
+            simp only [List.getElem?_cons_succ]
+            have e : k + (j + 1) = k + 1 + j := by omega
+            rw [e] at hj
+            exact hones j hj (by simpa using hlt)
+
+theorem map_removeAxesFrom {α β : Type} (f : α → β) (axes : List Nat) (k : Nat) (l : List α) :
+    (removeAxesFrom axes k l).map f = removeAxesFrom axes k (l.map f) := by
+  induction l generalizing k with
+  | nil => rfl
+  | cons x xs ih =>
+    simp only [removeAxesFrom, List.map_cons]
+    split <;> simp [ih]
+
+/-! ## permute_dims -/
+
+theorem labelChunks_range' (x : Chunks) (k i : Nat) :
+    (x.zip (List.range' k x.length)).filterMap (fun p => if p.2 = i then some p.1 else none)
+      = if k ≤ i then (x[i - k]?).toList else [] := by
+  induction x generalizing k with
+  | nil => simp
+  | cons c cs ih =>
+    simp only [List.length_cons, List.range'_succ, List.zip_cons_cons, List.filterMap_cons]
+    by_cases hki : k = i
+    · subst hki
+      rw [ih (k + 1)]
+      have hnot : ¬ (k + 1 ≤ k) := by omega
+      simp [hnot]
+    · rw [if_neg hki, ih (k + 1)]
+      by_cases hle : k ≤ i
+      · have h1 : k + 1 ≤ i := by omega
+        rw [if_pos h1, if_pos hle]
+        have : i - k = (i - (k + 1)) + 1 := by omega
+        rw [this, List.getElem?_cons_succ]
+      · rw [if_neg (by omega), if_neg hle]
+
+theorem labelChunks_single (x : Chunks) (i : Nat) :
+    labelChunks [⟨x, List.range x.length⟩] i = (x[i]?).toList := by
+  unfold labelChunks
+  simp only [List.flatMap_cons, List.flatMap_nil, List.append_nil]
+  rw [List.range_eq_range', labelChunks_range' x 0 i]
+  simp
+
+theorem permuteBlock_ok (x : Chunks) (axes : List Nat) (d : Chunks) (hd : bwChunkss (permuteBw x axes) = some d)
+    (coords s : List Nat) (he : extents d coords = some s) : bwBlockFaithful (permuteBw x axes) coords = some s := by
+  apply bwBlockFaithful_ok (permuteBw x axes) rfl rfl _ d hd coords s he
+  intro i _ u hu ch hch
+  have hmem := labelDim_mem (permuteBw x axes) rfl i u hu
+  simp only [permuteBw] at hmem hch
+  rw [labelChunks_single] at hmem hch
+  cases hx : x[i]? with
+  | none => rw [hx] at hch; simp at hch
+  | some c =>
+    rw [hx] at hmem hch
+    simp at hmem hch
+    left; rw [hch, hmem]
+
+/-! ## reference shapes -/
+
+/-- NumPy broadcasting of the operands' lengths along one label gives the declared length. -/
+theorem label_shape_reference (L : List (List Nat)) (u : List Nat)
+    (hL : ∀ ch ∈ L, ch = u ∨ ch = [1]) (hu : u ∈ L) : bcastAll (L.map List.sum) = some u.sum := by
+  apply bcastAll_unified
+  · intro v hv
+    obtain ⟨ch, hch, rfl⟩ := List.mem_map.mp hv
+    rcases hL ch hch with h | h
+    · left; rw [h]
+    · right; rw [h]; rfl
+  · exact List.mem_map.mpr ⟨u, hu, rfl⟩
+
+theorem sum_replicate_one (k : Nat) : (List.replicate k 1).sum = k := by
+  rw [List.sum_replicate_nat]; omega
+
+theorem shapeOf_removeAxes (axes : List Nat) (x : Chunks) : shapeOf (removeAxes axes x) = removeAxes axes (shapeOf x) := by
+  unfold shapeOf removeAxes
+  exact map_removeAxesFrom List.sum axes 0 x
+
+
+/-! ## expand_dims with one axis, squeeze shape -/
+
+theorem expandAxesFrom_hit {α : Type} (axes : List Nat) (v : α) (f k : Nat) (l : List α)
+    (h : axes.contains k = true) : expandAxesFrom axes v (f + 1) k l = v :: expandAxesFrom axes v f (k + 1) l := by
+  simp only [expandAxesFrom, h, if_true]
+
+theorem expandAxesFrom_miss {α : Type} (axes : List Nat) (v : α) (f k : Nat) (y : α) (ys : List α)
+    (h : axes.contains k = false) :
+    expandAxesFrom axes v (f + 1) k (y :: ys) = y :: expandAxesFrom axes v f (k + 1) ys := by
+  simp only [expandAxesFrom, h, Bool.false_eq_true, if_false]
+
+theorem expandAxesFrom_nohit {α : Type} (a : Nat) (v : α) (f k : Nat) (xs : List α) (h : a < k) :
+    expandAxesFrom [a] v f k xs = xs.take f := by
+  induction f generalizing k xs with
+  | zero => simp [expandAxesFrom]
+  | succ f ih =>
+    have hk : ([a] : List Nat).contains k = false := by simp; omega
+    cases xs with
+    | nil => simp only [expandAxesFrom, hk, Bool.false_eq_true, if_false]; simp
+    | cons y ys => rw [expandAxesFrom_miss _ _ _ _ _ _ hk, ih (k + 1) ys (by omega)]; simp
+
+theorem expandAxesFrom_single {α : Type} (a : Nat) (v : α) (k : Nat) (xs : List α) (h1 : k ≤ a) (h2 : a ≤ k + xs.length) :
+    expandAxesFrom [a] v (xs.length + 1) k xs = xs.take (a - k) ++ v :: xs.drop (a - k) := by
+  induction xs generalizing k with
+  | nil =>
+    have : a = k := by simp at h2; omega
+    subst this
+    simp [expandAxesFrom]
+  | cons y ys ih =>
+    by_cases hka : k = a
+    · subst hka
+      have hk : ([k] : List Nat).contains k = true := by simp
+      rw [expandAxesFrom_hit _ _ _ _ _ hk, expandAxesFrom_nohit k v _ (k + 1) (y :: ys) (by omega)]
+      simp
+    · have hk : ([a] : List Nat).contains k = false := by simp; omega
+      rw [List.length_cons, expandAxesFrom_miss _ _ _ _ _ _ hk, ih (k + 1) (by omega) (by simp at h2; omega)]
+      have : a - k = (a - (k + 1)) + 1 := by omega
+      rw [this]
+      simp
+
+theorem expandAxes_single {α : Type} (a : Nat) (v : α) (xs : List α) (h : a ≤ xs.length) :
+    expandAxes [a] v xs = xs.take a ++ v :: xs.drop a := by
+  unfold expandAxes
+  simp only [List.length_cons, List.length_nil, Nat.zero_add]
+  rw [expandAxesFrom_single a v 0 xs (by omega) (by omega)]
+  simp
+
+theorem squeezeShape_of_ones (axes : List Nat) (t : List Nat)
+    (h : ∀ j, axes.contains j = true → j < t.length → t[j]? = some 1) :
+    squeezeShape axes t = some (removeAxes axes t) := by
+  unfold squeezeShape
+  rw [if_pos]
+  rw [List.all_eq_true]
+  intro k hk
+  have hk' : k < t.length := by simpa using hk
+  cases hc : axes.contains k with
+  | false => simp
+  | true => simp [h k hc hk']
+
 end Cubed.ShapeCalc
